@@ -1364,6 +1364,26 @@ func c08R3(c *Ctx, r *c08Roles) {
 			c.Check(R3, key, badPos, bad == "", ifelse(bad == "", "after the document decoded, it is rejected only by the shared load protocol",
 				"the decoded document is rejected by an extra test ("+bad+") that the other way of opening the layout does not make: a layout that one constructor opens is refused by another "+
 					"(e.g. `\"manifests\": null`, which Store.saveIndex writes for an emptied store)"))
+			// the opener reports success only when the document went through the shared protocol, or was created
+			// because it did not exist (a file write): an unreadable index.json must not yield an empty store whose
+			// next save overwrites the tags on disk
+			var steps []ssa.Instruction
+			for _, call := range Calls(f, func(string) bool { return true }) {
+				g := StaticCallee(call)
+				n := CalleeName(call)
+				if isShared(g) || n == "os.WriteFile" || (g != nil && inModule(g) && reachesCall(g, 2, func(n string, _ ssa.CallInstruction) bool { return n == "os.WriteFile" || n == "os.Rename" })) {
+					if _, isCall := call.(*ssa.Call); isCall {
+						steps = append(steps, call.(ssa.Instruction))
+					}
+				}
+			}
+			if len(steps) > 0 {
+				sct := newCut()
+				c09SuccessCut(f, steps, sct)
+				okS, at := c09SuccessImplies(f, sct)
+				c.Check(R3, FnName(f)+"|success-implies-"+tn[strings.LastIndex(tn, ".")+1:]+"-loaded-or-created", at, okS, ifelse(okS, "every return that may report success lies behind the shared load protocol or the creation of the missing file",
+					"the opener can report success without having read the document (and without having created it): a store over an unreadable index.json starts empty and its next save overwrites the tags on disk"))
+			}
 		}
 	}
 	if nDec == 0 {
@@ -1749,6 +1769,16 @@ func c08R5(c *Ctx) {
 }
 
 var c08Mutants = []Mutant{
+	// mutation-sweep triage C2 (test-green survivors judged V)
+	{Name: "saveindex-api-does-nothing", File: "content/oci/oci.go",
+		Old: "\treturn s.saveIndex()\n}\n\nfunc (s *Store) saveIndex", New: "\treturn nil\n}\n\nfunc (s *Store) saveIndex",
+		Expect: "C08.R2.persist-tag-mutations|(*~/content/oci.Store).SaveIndex|explicit-save-success-implies-index-saved"},
+	{Name: "unreadable-index-opens-empty-store", File: "content/oci/oci.go",
+		Old: "\t\t\treturn fmt.Errorf(\"failed to open index file: %w\", err)\n", New: "\t\t\treturn nil\n",
+		Expect: "C08.R3.load-protocol|(*~/content/oci.Store).loadIndexFile|success-implies-Index-loaded-or-created"},
+	{Name: "unreadable-layout-file-accepted", File: "content/oci/oci.go",
+		Old: "\t\t\treturn fmt.Errorf(\"failed to open OCI layout file: %w\", err)\n", New: "\t\t\treturn nil\n",
+		Expect: "C08.R3.load-protocol|(*~/content/oci.Store).ensureOCILayoutFile|success-implies-ImageLayout-loaded-or-created"},
 	// coverage review: loops that must run to the end, constructors, tarfs index (all keep the repository's tests green)
 	{Name: "loader-stops-at-foreign-entry", File: "content/oci/readonlyoci.go",
 		Old: "\tfor _, desc := range index.Manifests {\n", New: "\tfor _, desc := range index.Manifests {\n\t\tif desc.MediaType == \"\" {\n\t\t\t// not an OCI descriptor: stop here\n\t\t\tbreak\n\t\t}\n",
